@@ -35,6 +35,7 @@ CLAIMS = {
                 "source-derived obligation re-checked on every run: the arity dispatch table extracted from src/basis_function/detail.rs passes params[t] to argument t for arities exactly 1..10 (c16_dispatch). "
                 "Tie: exact comparison of every entry of eval / eval_partial_deriv on position-sensitive integer probes, all arities 1..10, every ordered subset for small models, against the model AND against the by-name specification. TRAIT CONTRACT (Props/SepLawful.lean): whatever an accepted builder session returns, wrapped exactly like `impl SeparableNonlinearModel for SeparableModel`, is a Lawful model (sep_lawful) whose evaluation / derivative functions are the by-name specification (sep_evalF_spec); hence every end-to-end theorem about fits (C04, C06, C10, C11) holds for builder-made models without assumption (c04_e2e_builder).",
         "note": "Trusted: Lean kernel; Core/SepModel.lean + Core/ModelBuilder.lean transcriptions as validated by the exact probe stream; tools/extract_dispatch.py (regex extraction; if the source cannot be parsed the obligation is reported as skipped). "
+        "technique": "Lean 4 theorems about a hand-written executable model plus a dispatch table REGENERATED from src/basis_function/detail.rs on every run (translator tools/extract_dispatch.py), tied to /repo by an exact integer-probe correspondence check",
                 "End-to-end refinement (c16_refines_spec): for every accepted call sequence and every parameter vector of the model's length, eval = specEval and eval_partial_deriv(k) = specDeriv k "
                 "(the by-name specification, including error outcomes), the model holds the last x / initial parameters given; the wrapper closure's two panic sites are unreachable (c16_no_wrapper_panic). "
                 "Assumption stated in the theorem: the zero column has the requested length (DVector::zeros).",
@@ -88,6 +89,7 @@ CLAIMS = {
         "text": "Kernel-checked: for every schedule that executes all column tasks - any order - the parallel Jacobian equals the sequential one whenever all derivatives evaluate (c11_par_eq_seq); if a failing derivative's task runs the parallel Jacobian is absent like the sequential one (c11_par_failure); "
                 "set_params/residuals/params are the same definitions in the model - and in the source: the two LeastSquaresProblem impls (PARALLEL_NO / PARALLEL_YES) are parsed from src/solvers/levmar/mod.rs on every run and the bodies of set_params, residuals and params must be the same token sequence (tools/source_census.py, a difference breaks the tie); into_sequential preserves every field (c11_into_sequential). Assumption: derivative results during one Jacobian evaluation do not depend on call order (DerivDet). Tie: parallel vs sequential twins under pools of 1..16 threads. WHOLE FIT (Props/E2E.lean, Props/Refine.lean): for a model honouring the trait contract, the parallel problem under ANY legal scheduler (a possibly different order of the column tasks at every Jacobian evaluation, early stop only after a failed task) refines the same specification as the sequential problem (abs_hom_par, abs_hom_seq); therefore a whole fit returns the same Ok/Err, the same report and the same final parameters and cache (c11_fit_eq).",
         "note": "Trusted: as C01; rayon schedules are abstracted (any order), sampled on the code by pool size. Fits of parallel problems are compared in the fit stream.",
+        "technique": "Lean 4 theorems about a hand-written executable model with abstract schedulers, tied to /repo on every run by a differential correspondence check under rayon pools of 1..16 threads and by a source census (the mirrored sequential / parallel impls are re-parsed from the source and must be identical)",
     },
     "C04": {
         "text": "Kernel-checked for EVERY behaviour of the numerical oracles (QR, LMPAR, norms are unconstrained parameters of the transcribed optimizer): fit = Ok exactly when the termination reason it reports is ResidualsZero/Orthogonal/Converged and both branches carry the optimizer's final problem and report (c04_ok_iff, c04_report, c04_successful_iff); "
@@ -126,6 +128,7 @@ CLAIMS = {
                 "the optimizer model is total, never exhausts its fuel and stops after at most max(patience*(P+1),2) evaluations for EVERY behaviour of problem and numerical sub-routines (c08_lm_total, proved by an invariant over LM.run); a problem without residuals makes fit fail with User(residuals) without further model calls (c08_nonfinite_fails); "
                 "the usize subtraction of the statistics cannot panic in either profile (C12 Shape.c12_no_panic); builder-made models cannot hit their two panic sites (C16 c16_args_by_name). Tie: robustness stream in two build profiles under a watchdog; SOURCE CENSUS (tools/source_census.py, census/reference.json): every panic!/assert*!/debug_assert*!/unreachable!/unwrap/expect site of the non-test source is extracted from the repository on every run and compared (by file, function, kind and normalised text, never by line) with the reviewed list the shape model transcribes - a panic site the model does not have breaks the tie. SHAPE / EFFECTS MODEL (Core/ShapeModel.lean, Props/C08Shape.lean): every run-time dimension check of nalgebra (gemm, subtraction, copy_from, ad_mul in solve), varpro's own assert!s (diagonal weights, concat_colwise, extract_range, probability), debug_assert!s and the usize subtraction are transcribed as explicit panic outcomes over matrix SHAPES; for a model whose eval / eval_partial_deriv give output_len x base_function_count and a builder-made problem, set_params, jacobian (any column order), best_fit, try_calculate (both arithmetic profiles, debug assertions on or off, all sizes incl. under-determined, singular or not), the variance accessors and confidence_band_radius with a valid probability never panic (c08_set_params_no_panic, c08_jacobian_no_panic, c08_best_fit_no_panic, c08_try_calculate_no_panic, c08_accessors_no_panic); the only panic is the documented one (c08_band_panic_iff). That the checks are really transcribed is itself checked against the code: the SHAPE stream enumerates contract-violating models (wrong rows / columns / transposed / failing, per call) and compares the panic / absent / present outcome of build(), residuals() and jacobian() of the real code with the shape model's prediction, case by case (all agree on the unchanged tree).",
         "note": "Trusted: as C01/C04. NOT proved (runtime, sampled only): termination of nalgebra's SVD iteration on finite matrices, absence of panics inside nalgebra / levenberg-marquardt / distrs on extreme finite values. Defects repaired by fix: commits 1b6dc44 (SVD on non-finite input never returned) and 88a7c8e (NaN singular values of a finite matrix of extreme dynamic range made set_params / fit panic in the sort; found by the thorough tier).",
+        "technique": "Lean 4 theorems about a hand-written executable model (values, optimizer control flow, shapes/effects), tied to /repo on every run by a differential correspondence check (robustness stream in two build profiles, exhaustive shape stream) and by a source census of all panic sites regenerated from the source",
     },
     "C05": {
         "category": "other",
